@@ -115,19 +115,53 @@ def lookalike_script(rng, h265, ch, maxq, gop_len):
     sched += [[G.CONS, 0], [G.CONS, 1]] * 4
     return [G.FIXED, 2, maxq, rng.random() < 0.5, pkts, [0, 0], sched, [0, 0], False, 1, h265, False, rng.random() < 0.5]
 
+# ---- the conversion chain: RTP in -> rtp demuxer -> FLV muxer -> WriteFlvTag -> FLV consumers ---------------
+# For an FLV consumer the key flag that starts and stops dropping is the frame type the FLV packetizer writes.
+# Chain cases publish single-NAL video RTP packets (every NAL type that starts a key frame: H.264 IDR; HEVC
+# BLA_W_LP .. CRA_NUT = 16..21; every other type as inter / parameter set) into a stream with FLV and RTP
+# consumers (case field 13: 1 = FLV consumer) and judge BOTH sides with ok_C04x against the key starts of the
+# published video.
+H264_KEY, H264_OTHER = [5], [1, 1, 1, 1, 2, 6, 7, 8, 9]
+HEVC_KEY, HEVC_OTHER = [16, 17, 18, 19, 20, 21, 21, 21], [0, 1, 1, 1, 1, 8, 9, 22, 23, 32, 33, 34, 35, 39]
+
+def nal_pkt(rng, n, h265, t):
+    """single-NAL video packet of NAL type t; the id sits in payload[1..4] (RTP consumers read it there) and in
+    the last four bytes (where it ends up in the FLV tag)"""
+    b0 = (t << 1) if h265 else (rng.choice([0x20, 0x40, 0x60]) | t)
+    idb = n.to_bytes(4, "big")
+    return [n, 0, VIDEO, bytes([b0]) + idb + bytes(rng.randrange(256) for _ in range(rng.randint(0, 5))) + idb]
+
+def chain_case(rng, h265, maxq, npk, gop_len, stall_from, resume_at, late_join=False, only_types=None):
+    """consumer 0: healthy FLV tap, 1: FLV consumer that stalls, 2: RTP consumer that stalls the same way"""
+    keys, others = (HEVC_KEY, HEVC_OTHER) if h265 else (H264_KEY, H264_OTHER)
+    if only_types:
+        keys = only_types
+    pkts = [nal_pkt(rng, i + 1, h265, rng.choice(keys) if i % gop_len == 0 else rng.choice(others)) for i in range(npk)]
+    att = lambda c: [[G.ATT, c]] * 3
+    sched = att(0) + ([] if late_join else att(1) + att(2))
+    for i in range(npk):
+        if late_join and i == stall_from:
+            sched += att(1) + att(2)
+        sched += [[G.PUB, 0]] * 3 + [[G.CONS, 0]] * (10 if i == 0 else 2)
+        if not (stall_from <= i < resume_at) and not (late_join and i < stall_from):
+            k = rng.choice([2, 2, 4, 6])
+            sched += [[G.CONS, 1]] * k + [[G.CONS, 2]] * k
+    sched += [[G.CONS, 0], [G.CONS, 1], [G.CONS, 2]] * 4
+    return [G.FIXED, 3, maxq, rng.random() < 0.5, pkts, [0, 0, 0], sched, [0, 0, 0], False, 1, h265, False, False, [1, 1, 0]]
+
 def run(ck):
     if not ck.prepare():
         return ck.finish(rule="build failed")
     rng = ck.rng
     cases = []
-    for _ in range(36 if not ck.thorough else 600):
+    for _ in range(30 if not ck.thorough else 600):
         maxq = rng.randint(2, 8)
         npk = rng.randint(10, 60)
         g = rng.randint(1, 9)
         a = rng.randint(0, npk)
         cases.append(stall_case(rng, maxq, npk, g, a, rng.randint(a, npk + 5), gop=rng.random() < 0.5, h265=rng.random() < 0.5))
     cases += [G.rand_case(rng, G.FIXED, maxq=rng.randint(1, 4), max_pkts=30, max_len=160, panic_p=0.3)
-              for _ in range(50 if not ck.thorough else 800)]
+              for _ in range(44 if not ck.thorough else 800)]
     # the real limit of 1000: a few long scripts
     for _ in range(1 if not ck.thorough else 12):
         npk = rng.randint(1100, 1250) if not ck.thorough else rng.randint(1300, 1800)
@@ -141,7 +175,21 @@ def run(ck):
                 scripts.append(lookalike_script(rng, h265, ch, rng.randint(2, 5), rng.randint(4, 8)))
     ck.stream("not-video-looks-like-key", scripts, "C04_lts", "C04_lts", "C04_ok",
               nontrivial=lambda c: True, sig=lambda c, e, o: "lts-lookalike", timeout=900)
+    # the conversion chain: RTP in, FLV consumers served by rtp demuxer -> FLV muxer -> WriteFlvTag
+    chains = []
+    plans = [(True, [21]), (True, [19, 21, 21]), (True, None), (True, [16, 17, 18, 20]), (False, None), (False, None)]
+    if ck.thorough:
+        plans = plans * 12
+    for h265, only in plans:
+        npk = rng.randint(30, 44)
+        a = rng.randint(0, 4)
+        chains.append(chain_case(rng, h265, rng.randint(2, 5), npk, rng.randint(2, 5), a, rng.randint(npk - 12, npk - 4),
+                                 late_join=rng.random() < 0.3, only_types=only))
+    ck.stream("rtp-to-flv-chain", chains, "C04_chain", "C04_lts", "C04_chain_ok",
+              nontrivial=lambda c: True, sig=lambda c, e, o: "chain", timeout=900)
     ck.stream("stall-resume+random", cases, "C04_lts", "C04_lts", "C04_ok",
               nontrivial=lambda c: len(c[4]) > 5, sig=lambda c, e, o: "lts", timeout=1500)
     return ck.finish(rule="stall/resume scripts (one fast and one stalled consumer, key spacing 1..9, limit 2..8 set through "
-                          "media.VerifSetMaxQLen, plus scripts at the real limit 1000) and random schedules with panicking consumers")
+                          "media.VerifSetMaxQLen, plus scripts at the real limit 1000) and random schedules with panicking consumers; "
+                          "non-video packets that look like key-frame starts (audio and RTCP channels, by bytes); the conversion chain "
+                          "(RTP in, a healthy FLV tap, a stalled FLV and a stalled RTP consumer; every key NAL type of H.264 / HEVC)")
